@@ -407,7 +407,7 @@ PROPS = {
     "C10": {
         "level": "proof",
         "lean_modules": ["SqlizeModel.Props.TieStrGo", "SqlizeModel.Props.C10", "SqlizeModel.Props.TieBuilder", "SqlizeModel.Props.TieTemplates"],
-        "theorems": ["Sqlize.Tie.translated_is_model", "Sqlize.C10.keyword_spellings", "Sqlize.C10.keywords_fixed", "Sqlize.C10.apply_only_case", "Sqlize.C10.hash_case_free", "Sqlize.C10.keyword_case_statement", "Sqlize.C10.keyword_case_migration", "Sqlize.render_case_only", "Sqlize.migration_case_only", "Sqlize.sprintfAux_case", "Sqlize.templates_ok", "Sqlize.definition_case", "Sqlize.opt_case", "Sqlize.Tie.builder_skeleton_as_modelled", "Sqlize.Tie.templates_skeleton_as_modelled"],
+        "theorems": ["Sqlize.Tie.translated_is_model", "Sqlize.C10.keyword_spellings", "Sqlize.C10.keywords_fixed", "Sqlize.C10.apply_only_case", "Sqlize.C10.hash_case_free", "Sqlize.C10.keyword_case_statement", "Sqlize.C10.keyword_case_migration", "Sqlize.C10.keyword_case_migration_known_index_types", "Sqlize.usingOK_known", "Sqlize.render_case_only", "Sqlize.migration_case_only", "Sqlize.sprintfAux_case", "Sqlize.templates_ok", "Sqlize.definition_case", "Sqlize.opt_case", "Sqlize.Tie.builder_skeleton_as_modelled", "Sqlize.Tie.templates_skeleton_as_modelled"],
         "suites": [{"name": "struct", "kind": "struct"}, {"name": "hash"}, {"name": "pair"}],
         "corr_points": ["AddTable", "AddTable-other-case", "StringUp-other-case", "StringDown-other-case"],
         "rule": STRUCT_RULE + " | C10: per tag keyword a random camelCase / snake_case spelling and a shuffled item order, the expected schema does not "
